@@ -40,7 +40,7 @@ CLAIMS = {
    text="Contracts on the real one-loop kernels: amu1LChi0 and amu1LChipm (with n^L, n^R, c^L, c^R, A/B combinations, x_im, x_k executed) equal the published neutralino/chargino "
         "formulas written independently in the standard hep-ph/0609168 form, for ALL values of the reported masses, complex neutralino mixing, real smuon/chargino mixings, gauge and Yukawa "
         "couplings; THDM amu1L equals the flavour-summed Eq.(27) of arXiv:1607.06292 minus the SM term for complex Yukawa matrices, amu1L_approx equals Eq.(27)-(30); the THDM parameter "
-        "filler hands exactly the documented getters to the kernel.  Loop functions are uninterpreted; the identities are discharged by ring normalisation.",
+        "filler hands exactly the documented getters to the kernel.  Loop functions are uninterpreted; the identities are discharged by ring normalisation.  The model the formula is evaluated for is consistent: after calculate_masses, convert_to_onshell and convert_to_non_tan_beta_resummed T_f = Y_f A_f entry by entry with the FINAL (resummed) Yukawa couplings, on every returning path (native replay).",
    note=NOTE_COMMON + "The relation of masses/mixings to the Lagrangian parameters is C04 + A-LINALG (Haber-Kane/Takagi conventions assumed as documented); the numerical tolerance 1e-8 of the statement "
         "concerns rounding, which is not covered; sympy ring normalisation is in the trusted base.",
    technique="symbolic execution of the extracted kernels vs independent spec; ring normalisation (sympy)", design='5 C03'),
